@@ -302,6 +302,10 @@ Valid(d) ==
   /\ Len(Blocks(d, "info")) <= 1
   /\ \A b \in Range(Blocks(d, "info")) : b.title # "" \/ b.version # "" \/ b.desc # ""
   /\ NoDup(Names(d, "server")) /\ NoDup(Names(d, "type")) /\ NoDup(Names(d, "enum")) /\ NoDup(Names(d, "tag"))
+  \* the Tags of a URL block are checked with the block itself, whether or not a method falls back to them
+  \* (finding F-20, repaired: before, a list that no method consulted was never looked at)
+  /\ \A i \in 1..Len(Blocks(d, "url")) : \A j \in 1..Len(Blocks(d, "url")[i].tags) :
+        Blocks(d, "url")[i].tags[j] \in DefinedTags(d)
   /\ \A b \in AllBodies(d) : BodyRefs(b) \subseteq DefinedTypes(d) /\ BodyEnums(b) \subseteq DefinedEnums(d)
   \* only types written in the jsight or regex notation can be referred to from a schema
   /\ \A b \in AllBodies(d) : \A n \in BodyRefs(b) : TypeTable(d)[n].k \notin {"any", "empty"}
